@@ -11,6 +11,7 @@
 //	direct <seed>             C13: VerifExecuteWithRetries called directly
 //	faults <seed> <tier>      C15: fault-injecting JobQueue
 //	restart <seed> <n>        C05/C10: restart with the loop of the stopped run still alive
+//	poolstop <seed> <rounds>  C10: shutdown of a saturated worker pool
 package main
 
 import (
@@ -221,6 +222,8 @@ func main() {
 		cmdFaults()
 	case "restart":
 		cmdRestart()
+	case "poolstop":
+		cmdPoolStop()
 	default:
 		fmt.Fprintln(os.Stderr, "unknown subcommand", os.Args[1])
 		os.Exit(2)
